@@ -352,12 +352,12 @@ def run(ctx):
     ctx.extra["phase_cpu_s"] = cpu
     recs = res["export"]
     for k, rec in enumerate(recs):
-        replay(ctx, rec, full=ctx.thorough and (len(rec["prog"]) <= 2 or k % 7 == 0))
+        replay(ctx, rec, full=ctx.thorough and (len(rec["prog"]) <= 2 or k % 4 == 0))
         note(rec)
     ctx.sample({"spec_behaviour": recs[len(recs) // 2]})
     lap("main")
     for k, rec in enumerate(res["ext"]):
-        replay(ctx, rec, full=ctx.thorough and k % 3 == 0, lite=(rec["n"] + (1 if rec["pairs"] else 0) + ctx.seed) % 2 == 1)
+        replay(ctx, rec, full=ctx.thorough)
         note(rec)
     ctx.sample({"spec_behaviour_extended_vocabulary": res["ext"][len(res["ext"]) // 2]})
     lap("ext")
